@@ -235,6 +235,23 @@ def _sc():
     return slopecovariance
 
 
+def big_array_structure_function(sc):
+    """structure_function_vk on 2^20 + ... separations at once (what one block of a sensor with more than a thousand sub-apertures
+    hands over) against the independent evaluation, element by element"""
+    g = np.random.default_rng(8)
+    sep = np.abs(g.normal(0, 6.0, size=(1100, 1000))) + 1e-4
+    sep[::97, ::89] = 0.0
+    got = np.asarray(sc.structure_function_vk(sep.copy(), 0.17, 23.0), float)
+    want = d_vk(sep, 0.17, 23.0)
+    bad = []
+    if got.shape != want.shape or not np.allclose(got, want, rtol=1e-9, atol=1e-9 * np.abs(want).max()):
+        bad.append(("structure_function_vk:large-array", dict(max_rel=float(np.nanmax(np.abs(got - want)) / np.abs(want).max()) if got.shape == want.shape else None)))
+    small = np.asarray(sc.structure_function_vk(sep[:3, :5].copy(), 0.17, 23.0), float)
+    if not np.array_equal(small, got[:3, :5]):
+        bad.append(("structure_function_vk:value-depends-on-array-size", dict(max=float(np.abs(small - got[:3, :5]).max()))))
+    return bad
+
+
 def run(run):
     sc = _sc()
     quick = run.tier == "quick"
@@ -263,7 +280,10 @@ def run(run):
                 run.sample({kk: (v if kk != "def" else v[:3]) for kk, v in c.items()}, limit=3)
             for key, detail in bad:
                 run.violation(key, detail, c)
-    run.traces += n
+    with np.errstate(all="ignore"):
+        for key, detail in big_array_structure_function(sc):
+            run.violation(key, detail, dict(kind="bigsf"))
+    run.traces += n + 1
     run.aux.update(configurations=n, reconfigured_rebuilds=n_reconf, most_negative_eigenvalue_rel=mineig, trusted=["scipy.special.kv/gamma", "numpy.linalg.eigvalsh"])
     run.assumptions += [
         "positive semi-definiteness as an eigenvalue fact is an auxiliary float check; it is implied by Impl = Def (a Gram matrix)",
@@ -275,6 +295,11 @@ def run(run):
 def replay(run, case):
     sc = _sc()
     warnings.simplefilter("ignore")
+    if case.get("kind") == "bigsf":
+        with np.errstate(all="ignore"):
+            for key, detail in big_array_structure_function(sc):
+                run.violation(key, detail, case)
+        return
     if case.get("kind") == "reconfigure":
         for key, detail in check_reconfigured(sc, case["first"], case["second"]):
             run.violation(key, detail, case)
